@@ -202,6 +202,19 @@ CHECKS['C05'] = dict(
     technique="Coq proof (comment attachment, callable variants) + ground-truth differential check of the database over generated headers",
     ref="5/C05")
 
+CHECKS['C01'] = dict(
+    text="Proof (partial): a handle-style wrapper is modelled as a state machine over an ARBITRARY wrapped function f : args -> world -> result * world: a variant that omits k trailing "
+         "parameters, argument/result conversion (char const * <-> std::string), and the block-scope static that parks a std::string result. For every f, every variant, every history "
+         "of calls, every initial world and initial holder, the repaired wrapper returns exactly the results of the direct calls with the declared defaults and leaves the same world; the "
+         "pinned 'static std::string holder = call' is refuted by a two-call witness (second call returns the first value and does not run); the NUL-freeness hypothesis is shown "
+         "necessary. Correspondence/specification by EXECUTION: instrumented generated libraries (inheritance incl. multiple/virtual, static/const/virtual methods, overloads, defaults, "
+         "operators, data members of every scalar kind, namespace function, typedef'd template instantiation) x {-string} x {-promiscuous}: the -oc file is compiled (ASan+UBSan) and every "
+         "exported wrapper and variant is called with boundary values and compared with the direct C++ call (return value, trace log, states of this and argument objects, cast offsets).",
+    note=TB + "the generated wrapper text is not modelled statement by statement: the model's claim (wrapper = direct call) is checked by running the real generated code; only the -c back-end "
+         "with -fnames is executed; g++ 12 with ASan/UBSan is the execution platform.",
+    technique="Coq proof (wrapper state machine equals direct calls for all histories; pinned holder refuted) + execution-based differential check of the generated wrappers against the wrapped C++",
+    ref="5/C01")
+
 PENDING = {
 }
 
